@@ -123,10 +123,12 @@ class MapV:
 
 
 class Closure(Agg):
-    __slots__ = ('loc',)
+    """closure or coroutine (async fn / async block state machine): fields = captured upvars;
+    coroutines keep the storage of each suspension state separately in vstore"""
+    __slots__ = ('loc', 'vstore', 'body')
 
     def __init__(self, loc, caps):
-        Agg.__init__(self, '{closure}', None, caps); self.loc = loc
+        Agg.__init__(self, '{closure}', None, caps); self.loc = loc; self.vstore = {}; self.body = None
 
 
 class FnItem:
@@ -230,6 +232,8 @@ class Frame(dict):
 
 class Exec:
     STEP_CAP = 3_000_000
+    DEPTH_CAP = 2500          # MIR call depth; the deepest legitimate recursion in any bounded harness is far below
+    PATH_WALL_CAP = 90.0      # seconds of wall time for one path (solver-heavy runaway loops hit this before the step cap)
 
     def __init__(self, world, decisions=(), seed=0):
         self.w = world; self.decisions = list(decisions); self.taken = []
@@ -251,6 +255,8 @@ class Exec:
         self.ite_reads = False
         self.concrete_inputs = None   # replay mode: sym() returns these values
         self.deferred = None          # list while obligations are being batched (see flush)
+        self.overrides = {}           # fn name -> python replacement (environment stubs installed by a harness)
+        self.t_start = time.time(); self.ncalls = 0
 
     # ---------------------------------------------------------------- symbols
     def sym(self, name, ty):
@@ -489,7 +495,9 @@ class Exec:
 
     # ---------------------------------------------------------------- values
     def copyval(self, v):
-        if isinstance(v, Closure): return Closure(v.loc, [Cell(self.copyval(c.v)) for c in v.fields])
+        if isinstance(v, Closure):
+            c2 = Closure(v.loc, [Cell(self.copyval(c.v)) for c in v.fields]); c2.name = v.name; c2.variant = v.variant; c2.body = v.body
+            return c2
         if isinstance(v, Agg): return Agg(v.name, v.variant, [Cell(self.copyval(c.v)) for c in v.fields])
         if isinstance(v, VecV): return VecV([Cell(self.copyval(c.v)) for c in v.items], v.cap)
         if isinstance(v, MapV): return MapV([[Cell(self.copyval(k.v)), Cell(self.copyval(c.v))] for k, c in v.entries], v.kind)
@@ -528,7 +536,8 @@ class Exec:
                 elif isinstance(r, (SliceRef, Str, Opaque)): cell = Cell(r)
                 else: raise Unsupported(f'deref of {r!r}')
             elif k == 'downcast':
-                pass
+                if p[1].startswith('variant#') and isinstance(cell.v, Closure):
+                    cell = cell.v.vstore.setdefault(p[1], Cell(Agg('variant', None, [])))
             elif k == 'index':
                 cell = self.index_cell(cell.v, frame[p[1]].v, rd)
             elif k == 'cindex':
@@ -700,7 +709,9 @@ class Exec:
     # ---------------------------------------------------------------- execution
     def call_fn(self, fn, args):
         self.depth += 1
-        if self.depth > self.maxdepth: self.maxdepth = self.depth
+        if self.depth > self.maxdepth:
+            self.maxdepth = self.depth
+            if self.depth > self.DEPTH_CAP: raise StepLimit('call depth %d in %s' % (self.depth, fn.name))
         mon = self.monitors.get(fn.name)
         if mon is not None: mon(self, fn, args)
         self.fns_hit.add(fn.name)
@@ -733,6 +744,8 @@ class Exec:
                         raise Panic('assert ' + st[3] + ' in ' + fn.name)
                     elif k == 'call':
                         if self.steps > self.STEP_CAP: raise StepLimit(fn.name)
+                        self.ncalls += 1
+                        if (self.ncalls & 255) == 0 and time.time() - self.t_start > self.PATH_WALL_CAP: raise StepLimit('path wall time in ' + fn.name)
                         args2 = [self.operand(frame, a, fn) for a in st[3]]
                         dest_ty = fn.local_types.get(st[1][1]) if (st[1] is not None and not st[1][2]) else None
                         r = self.call(st[2], args2, fn, dest_ty)
@@ -829,6 +842,7 @@ class Exec:
             c = Closure(loc, [Cell(self.operand(frame, o, fn)) for _, o in rv[2]])
             if rv[1].startswith('{coroutine@'):
                 c.name = '{coroutine}'; c.variant = 0
+                c.body = self.w.closures.get(loc) or self.w.fns.get(fn.name + '::{closure#0}')
             return c
         if k == 'adt':
             return self.mk_adt(rv[1], [Cell(self.operand(frame, o, fn)) for _, o in rv[2]], rv[3], fn, dest)
@@ -860,6 +874,8 @@ class Exec:
     def call(self, callee, args, fn, dest_ty=None):
         ci = self.w.resolve(callee)
         if ci.fn is not None:
+            ov = self.overrides.get(ci.fn.name) if self.overrides else None
+            if ov is not None: return ov(self, args)
             return self.call_fn(ci.fn, args)
         import models
         self.stubs.add(ci.callee)
